@@ -243,7 +243,7 @@ prop(
     "C04",
     level="other",
     design_ref="DESIGN.md section 3, C04",
-    groups=[(_PIPE, r"^(\(\*eventPool\)\.wakeupWaiters|\(\*lowMemoryEventPool\)\.(wakeupWaiters|back|eventsAvailable)|\(\*stream\)\.(put|tryDetach|tryUnblock)|\(\*streamer\)\.makeCharged|\(\*Batch\)\.updateStatus|\(\*Batcher\)\.heartbeat)$")],
+    groups=[(_PIPE, r"^(\(\*eventPool\)\.wakeupWaiters|\(\*lowMemoryEventPool\)\.(wakeupWaiters|back|eventsAvailable)|\(\*stream\)\.(put|tryDetach|tryUnblock)|\(\*streamer\)\.(makeCharged|makeBlocked|resetBlocked)|\(\*Batch\)\.updateStatus|\(\*Batcher\)\.(heartbeat|work))$")],
     canaries=[("./pipeline", "replay/C04/zz_replay_c04_test.go", "TestVerifReplayC04")],
     claim=(
         "The must-signal / must-flush rules the no-wedge property rests on, as proved per-iteration and per-call contracts: both pool heartbeats broadcast in every iteration in which readers wait and capacity is free (and only then); "
